@@ -189,31 +189,42 @@ func (g *Generator) generateMockFieldAssignments(
 		fieldName := field.GoName
 		fieldPath := messageName + "." + string(field.Desc.Name())
 
+		// assign stores a scalar expression in the field: repeated fields get a one-element
+		// slice, proto3 optional fields a pointer, oneof members their wrapper
+		assign := func(goType string, expr ...any) {
+			var line []any
+			switch {
+			case field.Desc.IsList():
+				line = append(line, varName, ".", fieldName, " = []", goType, "{")
+				line = append(append(line, expr...), "}")
+			case field.Desc.HasOptionalKeyword():
+				line = append(line, varName, ".", fieldName, " = func(v ", goType, ") *", goType, " { return &v }(")
+				line = append(append(line, expr...), ")")
+			case field.Oneof != nil:
+				line = append(line, varName, ".", field.Oneof.GoName, " = &", field.GoIdent, "{", fieldName, ": ")
+				line = append(append(line, expr...), "}")
+			default:
+				line = append(append(line, varName, ".", fieldName, " = "), expr...)
+			}
+			gf.P(line...)
+		}
+
 		// Generate assignment based on field type
 		switch field.Desc.Kind() {
 		case protoreflect.StringKind:
-			gf.P(
-				varName,
-				".",
-				fieldName,
-				" = selectStringExample(\"",
-				fieldPath,
-				"\", ",
-				g.getDefaultGenerator(field),
-				")",
-			)
+			assign(kindString, "selectStringExample(\"", fieldPath, "\", ", g.getDefaultGenerator(field), ")")
 		case protoreflect.Int32Kind:
 			// selectIntExample returns int64
-			gf.P(varName, ".", fieldName, " = int32(selectIntExample(\"", fieldPath, "\", ", g.getDefaultValue(field), "))")
+			assign(kindInt32, "int32(selectIntExample(\"", fieldPath, "\", ", g.getDefaultValue(field), "))")
 		case protoreflect.Int64Kind:
-			gf.P(varName, ".", fieldName, " = selectIntExample(\"", fieldPath, "\", ", g.getDefaultValue(field), ")")
+			assign(kindInt64, "selectIntExample(\"", fieldPath, "\", ", g.getDefaultValue(field), ")")
 		case protoreflect.BoolKind:
-			gf.P(varName, ".", fieldName, " = selectBoolExample(\"", fieldPath, "\", ", g.getDefaultValue(field), ")")
+			assign(kindBool, "selectBoolExample(\"", fieldPath, "\", ", g.getDefaultValue(field), ")")
 		case protoreflect.FloatKind:
 			// selectFloatExample returns float64
-			gf.P(varName, ".", fieldName, " = float32(selectFloatExample(\"", fieldPath, "\", ", g.getDefaultValue(field), "))")
+			assign("float32", "float32(selectFloatExample(\"", fieldPath, "\", ", g.getDefaultValue(field), "))")
 		case protoreflect.DoubleKind:
-			gf.P(varName, ".", fieldName, " = selectFloatExample(\"", fieldPath, "\", ", g.getDefaultValue(field), ")")
+			assign("float64", "selectFloatExample(\"", fieldPath, "\", ", g.getDefaultValue(field), ")")
 		case protoreflect.MessageKind:
 			switch {
 			case field.Desc.IsMap():
@@ -221,6 +232,8 @@ func (g *Generator) generateMockFieldAssignments(
 				g.generateMockMapFieldAssignment(gf, field, varName)
 			case field.Desc.IsList():
 				gf.P("// TODO: Handle repeated message field ", fieldName)
+			case field.Oneof != nil && !field.Desc.HasOptionalKeyword():
+				gf.P("// TODO: Handle oneof message member ", fieldName)
 			default:
 				gf.P(varName, ".", fieldName, " = &", field.Message.GoIdent, "{}")
 				g.generateMockFieldAssignments(gf, field.Message, varName+"."+fieldName)
